@@ -304,7 +304,8 @@ def limit (maxSamples maxShots : Option Nat) : Option Nat :=
 structure SamplesIn where
   maxSamples : Option Nat
   maxShots : Option Nat
-  filter : Nat            -- min_detected_photons_filter
+  filter : Nat            -- the EFFECTIVE photon filter: `min_detected_photons_filter` + photons expected
+                          -- by the heralds (section 7); before the repair the code used the bare value
   prePerf : Rat           -- pre_physical_perf
   zpp : Rat
   firstBatch : Nat → Nat  -- length of `first_batch` as a function of `prepare_samples`
@@ -331,5 +332,57 @@ def samplesPipeline (i : SamplesIn) (ops : List Shot) : SamplesOut :=
         let s := loop ⟨ms, sh', i.hasCallback⟩ (i.firstBatch (p' + 1)) ops
         if s.halt = some .exhausted then .error "IndexError"
         else .result s.out ((perf s).1 * i.prePerf) (perf s).2 (some s)
+
+/-! ## 7. classification of one sampled state: photon filter, heralds, post-selection
+
+`_noisy_sampling`: `if sampled_state.n < filter: physically rejected; elif _state_selected(state):
+remove the heralded modes and append; else logically rejected`.
+
+DEFECT REPAIRED (fixes/C09-sampler-filter-heralds.diff): the documented meaning of
+`min_detected_photons_filter` is "minimum number of photons, heralded modes NOT counted", and the
+strong simulators implement it as `filter + Σ heralds` on the full state
+(`ISimulator.min_detected_photons_filter`).  The sampler compared the full state with the bare value,
+so with a herald expecting photons it let through states strong simulation discards.
+`fixed = true` is the repaired code (main model), `fixed = false` the code as it was (kept for the
+regression witness).  `ps` is the verdict of the native `PostSelect` on the state (external). -/
+
+/-- photons the heralds expect (`sum(self._heralds.values())`) -/
+def heraldPhotons (heralds : List (Nat × Nat)) : Nat := (heralds.map (·.2)).sum
+
+/-- the heralds loop of `_state_selected` -/
+def heraldsOk (heralds : List (Nat × Nat)) (st : List Nat) : Bool :=
+  heralds.all fun h => st.getD h.1 0 == h.2
+
+/-- threshold the full state's photon number is compared with -/
+def effFilter (fixed : Bool) (filter : Nat) (heralds : List (Nat × Nat)) : Nat :=
+  if fixed then filter + heraldPhotons heralds else filter
+
+def shotOutcome (fixed : Bool) (filter : Nat) (heralds : List (Nat × Nat)) (ps : Bool)
+    (st : List Nat) : Outcome :=
+  if st.sum < effFilter fixed filter heralds then .phys
+  else if heraldsOk heralds st && ps then .sel
+  else .logic
+
+/-- `BasicState.remove_modes(modes)` (positions counted from `i`) -/
+def removeFrom (modes : List Nat) : Nat → List Nat → List Nat
+  | _, [] => []
+  | i, x :: xs =>
+    if modes.contains i then removeFrom modes (i + 1) xs else x :: removeFrom modes (i + 1) xs
+
+def removeModes (modes : List Nat) (st : List Nat) : List Nat := removeFrom modes 0 st
+
+/-- photons sitting in the listed modes (positions counted from `i`) -/
+def photonsIn (modes : List Nat) : Nat → List Nat → Nat
+  | _, [] => 0
+  | i, x :: xs => (if modes.contains i then x else 0) + photonsIn modes (i + 1) xs
+
+/-- number of listed modes among positions `i, i+1, …` of the state -/
+def modesIn (modes : List Nat) : Nat → List Nat → Nat
+  | _, [] => 0
+  | i, _ :: xs => (if modes.contains i then 1 else 0) + modesIn modes (i + 1) xs
+
+/-- what `_noisy_sampling` appends for a selected state -/
+def emitted (heralds : List (Nat × Nat)) (keepHeralds : Bool) (st : List Nat) : List Nat :=
+  if !heralds.isEmpty && !keepHeralds then removeModes (heralds.map (·.1)) st else st
 
 end PM.C09
